@@ -575,45 +575,6 @@ struct C03
     }
 };
 
-// positions of the inner length fields of a consistent payload of class cls
-std::vector<std::pair<size_t, int>> lengthFields(int cls, const Bytes& b)
-{
-    std::vector<std::pair<size_t, int>> f;  // (offset, width in bytes)
-    switch (cls)
-    {
-        case CL_CAN:
-        case CL_CANFD: f.push_back({15, 1}); break;
-        case CL_LIN: f.push_back({7, 1}); break;
-        case CL_ETH: f.push_back({4, 2}); break;
-        case CL_ANALOG: f.push_back({0, 2}); break;  // sample datatype lives in the flags word
-        case CL_CM:
-        {
-            wire::CmViews v;
-            if (wire::cmConsistent(b.data(), b.size(), &v))
-                for (int i = 0; i < 5; ++i)
-                    f.push_back({v.off[i] - 2, 2});
-            break;
-        }
-        default:
-        {
-            wire::IfViews v;
-            if (wire::ifConsistent(b.data(), b.size(), &v))
-            {
-                f.push_back({wire::kIfHeader, 2});
-                f.push_back({v.vendorOff - 2, 2});
-            }
-            f.push_back({29, 1});
-            break;
-        }
-    }
-    // only fields that lie inside the buffer
-    std::vector<std::pair<size_t, int>> in;
-    for (auto& x : f)
-        if (x.first + static_cast<size_t>(x.second) <= b.size())
-            in.push_back(x);
-    return in;
-}
-
 // deterministic: class cls, total length len in [0, header+8] (+ a few larger), every inner length field x value lattice x 3 backgrounds
 void c03Det(Ctx& c, long idx)
 {
@@ -648,7 +609,7 @@ void c03Det(Ctx& c, long idx)
     {
         Bytes base = genPayload(clsKind(cls), len, r);
         t.buffer(cls, base, 3);
-        for (auto& lf : lengthFields(cls, base))
+        for (auto& lf : lengthFieldsOf(clsKind(cls), base))
         {
             size_t rem = base.size() - (lf.first + static_cast<size_t>(lf.second));
             std::vector<uint32_t> vals = {0, 1, 2, static_cast<uint32_t>(rem - 1), static_cast<uint32_t>(rem), static_cast<uint32_t>(rem + 1), 0xFF, 0xFFFE, 0xFFFF, 0x7F, 0x80, 0x100, 0x8000};
@@ -699,7 +660,7 @@ void c03Random(Ctx& c, long idx)
             size_t muts = r.below(4);
             for (size_t k = 0; k < muts; ++k)
             {
-                auto lfs = lengthFields(cls, b);
+                auto lfs = lengthFieldsOf(clsKind(cls), b);
                 unsigned m = static_cast<unsigned>(r.below(10));
                 if (m < 5 && !lfs.empty())
                 {
